@@ -306,6 +306,18 @@ class CircuitCompositeOperation(ICircuitCompositeOperation):
         """
         flatten_circuit_graph: CircuitGraphBranch = CircuitGraphBranch()
         for operation in tqdm(self.decomposed_operations(), desc="Flatten Circuit Graph"):
+            # Relation to a (removed) composite-operation is transferred to the operations it contains
+            reference_node: Optional[ICircuitOperation] = operation.relation_link.reference_node
+            if isinstance(reference_node, CircuitCompositeOperation) and len(reference_node.decomposed_operations()) > 0:
+                relation_type: RelationType = operation.relation_link.relation_type
+                if relation_type == RelationType.JOINED_START:
+                    operation.relation_link = RelationLink(reference_node.decomposed_operations()[0], relation_type)
+                else:
+                    operation.relation_link = MultiRelationLink(
+                        _reference_nodes=reference_node.decomposed_operations(),
+                        _relation_to_group=MultiRelationType.LATEST,
+                        _relation_type=relation_type,
+                    )
             CircuitGraphBranch.add_to_graph(
                 graph=flatten_circuit_graph,
                 operation=operation,
